@@ -395,16 +395,30 @@ func (x *Exec) execInstr(in ssa.Instruction, st *State, pc Term) {
 		if x.fc != nil && len(x.fc.Cuts) > 0 {
 			stt := i.X.Type().Underlying().(*types.Pointer).Elem().Underlying().(*types.Struct)
 			fname := stt.Field(i.Field).Name()
+			fired := false
 			for _, cut := range x.fc.Cuts {
 				if cut.Hit || cut.Field != fname {
 					continue
 				}
 				cut.Hit = true
+				fired = true
 				env := x.newEnv(st, x.entry)
 				env.at = i.Pos()
 				goal := x.evalClause(env, cut.C)
-				x.vc.oblige(&Obligation{Name: cut.C.Name, Kind: "cut", Tags: cut.C.Tags, Goal: goal, PC: pc, Src: cut.C.Src, Pos: x.posStr(i.Pos()), Observe: x.observations()})
+				// prove the fact separately on each path that meets at this join (smaller float queries)
+				if ctxs := x.cutContexts(i); len(ctxs) > 1 {
+					for k, cx := range ctxs {
+						penv := x.newEnv(cx.st, x.entry)
+						penv.at = i.Pos()
+						pg := x.evalClause(penv, cut.C)
+						x.vc.oblige(&Obligation{Name: fmt.Sprintf("%s@path%d", cut.C.Name, k+1), Kind: "cut", Tags: cut.C.Tags, Goal: pg, PC: cx.cond, Src: cut.C.Src, Pos: x.posStr(i.Pos()), Observe: x.observations(), Block: cx.blk, BlockSet: cx.hasBlk})
+					}
+				} else {
+					x.vc.oblige(&Obligation{Name: cut.C.Name, Kind: "cut", Tags: cut.C.Tags, Goal: goal, PC: pc, Src: cut.C.Src, Pos: x.posStr(i.Pos()), Observe: x.observations()})
+				}
 				x.vc.assume(implies(pc, goal), "cut fact "+cut.C.Name)
+			}
+			if fired {
 				x.vc.stage++
 			}
 		}
@@ -1141,6 +1155,51 @@ func (x *Exec) execBlock(b *ssa.BasicBlock) {
 		return
 	}
 	x.runBody(b, st, pc)
+}
+
+// cutContexts: if the cut instruction is preceded in its block only by loads/address computations, the paths that
+// meet at the block's entry (un-merged through pass-through blocks)
+func (x *Exec) cutContexts(at ssa.Instruction) []edgeState {
+	b := at.Block()
+	if x.loops[b] != nil || b == x.fn.Blocks[0] {
+		return nil
+	}
+	for _, in := range b.Instrs {
+		if in == at {
+			break
+		}
+		switch u := in.(type) {
+		case *ssa.UnOp:
+			if u.Op != token.MUL {
+				return nil
+			}
+		case *ssa.FieldAddr, *ssa.IndexAddr, *ssa.DebugRef, *ssa.Alloc:
+		default:
+			return nil
+		}
+	}
+	budget := 16
+	var out []edgeState
+	for _, p := range b.Preds {
+		ps, ok := x.exitSt[p]
+		if !ok {
+			continue
+		}
+		c, ok := x.edgeCond[[2]*ssa.BasicBlock{p, b}]
+		if !ok {
+			continue
+		}
+		if _, isJump := p.Instrs[len(p.Instrs)-1].(*ssa.Jump); isJump && trivialBlock(p) {
+			out = append(out, x.leafContexts(p, c, ps, &budget)...)
+		} else {
+			budget--
+			out = append(out, edgeState{cond: c, st: ps, blk: p.Index, hasBlk: true})
+		}
+	}
+	if budget < 0 {
+		return nil
+	}
+	return out
 }
 
 // rangeIdxInv: -1 <= rangeindex < len, the invariant of a compiler-generated slice range loop (proved, not assumed)
